@@ -107,10 +107,11 @@ Theorem C13_list_query_agree :
                               lex_le rval (order_keys o) y x = true -> x = y) -> q = l).
 Proof. exact (@list_query_agree_multiple). Qed.
 
-(* ... many-to-many: the same, for orderings that do not name `id`.  *)
-Theorem C13_list_query_agree_related_partial :
+(* ... many-to-many, every ordering (an ordering that names `id` sorts by the
+   other class's id in both flavours). *)
+Theorem C13_list_query_agree_related :
   forall (ops : list op) (j : rjoin) (o : order) (inst : Z),
-    order_ok o = true -> order_mentions_id o = false ->
+    order_ok o = true ->
     live (j_owner j) inst (run ops) = true ->
     exists l cands,
       related_join j o (run ops) inst = JOk l /\ sql_related j o (run ops) inst = JOk cands /\
@@ -120,19 +121,6 @@ Theorem C13_list_query_agree_related_partial :
                               lex_le rval (order_keys o) x y = true ->
                               lex_le rval (order_keys o) y x = true -> x = y) -> q = l).
 Proof. exact (@list_query_agree_related). Qed.
-
-(* The full statement (no guard on the ordering) is false of the code as it
-   is: SQLRelatedJoin(..., orderBy='id') renders an unqualified `id` over three
-   tables and the database refuses it, while RelatedJoin sorts by id. *)
-Definition C13_list_query_agree_related_full : Prop := list_query_agree_related_full.
-Theorem C13_list_query_agree_related_refuted :
-  exists ops j o inst,
-    order_ok o = true /\ live (j_owner j) inst (run ops) = true /\
-    (exists b, related_join j o (run ops) inst = JOk [b]) /\
-    sql_related j o (run ops) inst = JDbError.
-Proof. exact (@related_query_id_refuted). Qed.
-Theorem C13_list_query_agree_related_full_refuted : ~ C13_list_query_agree_related_full.
-Proof. exact (@list_query_agree_related_full_false). Qed.
 
 (* Invariants over all histories: link rows only mention live objects (destroy
    cleans both columns, also of the table declared on the other class only);
@@ -213,8 +201,8 @@ Definition ex_ops : list op := [
 ].
 Definition o2 : order := OList [ka (CK K0); kd (CK K1)].
 
-Example C13_order_ok_nonvacuous : order_ok o2 = true /\ order_mentions_id o2 = false.
-Proof. split; reflexivity. Qed.
+Example C13_order_ok_nonvacuous : order_ok o2 = true.
+Proof. reflexivity. Qed.
 (* k0 ascending with NULL first; ties on k0 by k1 descending with NULL last *)
 Example C13_example_multiple :
   option_map ids (match multiple_join o2 (run ex_ops) 1 with JOk l => Some l | _ => None end)
@@ -243,6 +231,14 @@ Example C13_example_single :
 Proof. vm_compute. reflexivity. Qed.
 Example C13_live_nonvacuous : live (j_owner jA_rbs) 1 (run ex_ops) = true.
 Proof. vm_compute. reflexivity. Qed.
+(* ordering by '-id' in the query flavour: the candidates are there, and the
+   only answer the database may give is the list join's result *)
+Example C13_example_related_by_id :
+  let o := OOne (kd CId) in
+  (option_map ids (match related_join jP_of o (run ex_ops) 1 with JOk l => Some l | _ => None end),
+   option_map ids (match sql_related jP_of o (run ex_ops) 1 with JOk l => Some l | _ => None end))
+  = (Some [3; 1], Some [1; 3]).
+Proof. vm_compute. reflexivity. Qed.
 (* an id taken again after a destroy sees the rows that still point at it *)
 Example C13_example_id_taken_again :
   option_map ids (match multiple_join ONone (run (ex_ops ++ [Create CA (Some 2) None None None FkNone])) 2
@@ -266,9 +262,7 @@ Print Assumptions C13_many_to_many_members.
 Print Assumptions C13_symmetric.
 Print Assumptions C13_single.
 Print Assumptions C13_list_query_agree.
-Print Assumptions C13_list_query_agree_related_partial.
-Print Assumptions C13_list_query_agree_related_refuted.
-Print Assumptions C13_list_query_agree_related_full_refuted.
+Print Assumptions C13_list_query_agree_related.
 Print Assumptions C13_links_live.
 Print Assumptions C13_ids_unique.
 Print Assumptions C13_add_either_side.
